@@ -19,6 +19,31 @@ CLAIMED = {
             "thousands of (plotfile, field selector, level, box selector) cases per run, and the real results are compared with an "
             "independent oracle. Right level because the quantifier is all layouts x all selector forms.",
             "Box selection (int/slice/list/mask) and level selection are numpy/Python indexing, checked by the oracle only."),
+    "C02": ("Lean 4 header/level-header parser models + differential correspondence check",
+            "Proof obligations on the line/token model of PlotfileCooker.__init__/read_boxes/read_cell_headers (Header.parse, "
+            "Taste.parseCellH) and the FAB codec law; every exposed attribute is compared with an independent oracle's parse and "
+            "with the Lean models for every opening mode (limits 0..finest+1, header_only on a directory holding only the Header, "
+            "maxmins).", "Float tokens are opaque strings in Lean; their numeric value is compared by the oracle."),
+    "C03": ("Lean 4 completeness theorem of the validator walk + differential correspondence check",
+            "Proof: Taste.shapeOK_complete (every well-formed binary file is accepted by the byte walk of mp_fun_shape), "
+            "headersOK_entry, isLine_canonB, parse_canonB; the whole-plotfile validator model (Taste.tastePlt) is compared with "
+            "Taster on every generated well-formed plotfile under all 16 option sets, limits and both modes.",
+            "binary_data and boxes_coordinates compare floats (numpy isclose): outside the Lean model, decided on the real code against the oracle."),
+    "C04": ("Lean 4 soundness theorem of the validator walk + corruption sweep as correspondence check",
+            "Proof: Taste.shapeOK_sound / go_sound (if the byte walk accepts a file then the file is a chain header-line, payload of the "
+            "announced size, canonical next header, ... ending exactly at EOF) so each listed layout fault is the negation of a conjunct; "
+            "every corruption operator x site (singly and in pairs) is run through Taster in both modes and through the Lean "
+            "whole-plotfile model on identical bytes.", "Degenerate (negative-size) headers on the walk are a separate disjunct (NoDegenerate hypothesis)."),
+    "C15": ("Lean 4 theorem on the sequential file scan + schedule exploration as correspondence check",
+            "Proof: Scan.scan_fileOf (the scan of a well-formed file returns the selected block of every FAB exactly once, in disk order, and "
+            "stops); level iteration is run under several start orders of the per-file tasks and a real pool, compared as multisets with "
+            "the stored boxes and, for single fields, element-wise with the model's scan.",
+            "multiprocessing imap ordering contract assumed; OS scheduling only sampled with real pools."),
+    "C20": ("Lean 4 theorem read_inside_header + corruption sweep with read-back",
+            "Proof: ReaderR.read_inside_header (a recorded offset anywhere inside a FAB's header line whose remaining text still parses reads "
+            "exactly that FAB's payload) on top of shapeOK_sound; every corrupted instance default validation accepts is read back in full "
+            "and compared with the FAB whose header names the box's range.",
+            "NoStrayHeader: payloads that spell a FAB header are not generated; instances with several candidate headers are counted, not judged."),
 }
 
 NOT_YET = {}
